@@ -141,10 +141,19 @@ func (p *jsonPathParser) _unescapeJSONString(input []byte) (string, error) {
 }
 
 func (p *jsonPathParser) syntaxErr(pos int, reason string, buffer string) error {
+	// pos counts characters (the parser works on runes); buffer is indexed by bytes.
+	byteOffset, runeCount := len(buffer), 0
+	for index := range buffer {
+		if runeCount == pos {
+			byteOffset = index
+			break
+		}
+		runeCount++
+	}
 	return ErrorInvalidSyntax{
 		position: pos,
 		reason:   reason,
-		near:     buffer[pos:],
+		near:     buffer[byteOffset:],
 	}
 }
 
